@@ -203,6 +203,14 @@ def expectedOpenFiles (w : World) : Outcome (List POpenFile) :=
   else if w.vanished then .exc .noSuchProcess
   else .ok (w.fds.filterMap (listed w.fs))
 
+/-- psutil's documented answer when the per-process directory / file itself cannot be opened
+    (`/proc/pid/fd` for open_files and num_fds, `/proc/pid/io` for io_counters): AccessDenied when
+    refused; for ENOENT / ESRCH: NoSuchProcess when the process is gone, ZombieProcess when it is a
+    zombie. (Nothing is promised about ENOENT / ESRCH on a running process.) -/
+def expectedOnError (alive zombie : Bool) : FileErr → Option Exc
+  | .denied => some .accessDenied
+  | .gone _ => if !alive then some .noSuchProcess else if zombie then some .zombieProcess else none
+
 def expectedNumFds (w : World) : Outcome Nat :=
   if w.goneBefore then .exc .noSuchProcess
   else if w.dirDenied then .exc .accessDenied
